@@ -16,9 +16,11 @@ PENDING_REASON = ('not claimed yet: model and theorems for this property are not
 def main():
     checks = []
     na = []
+    # a property is claimed only once the lead has seen its check pass on /repo: harness/claimed.txt
+    claimed = set(open(os.path.join(HERE, 'harness', 'claimed.txt')).read().split())
     for pid in ALL:
         path = os.path.join(HERE, 'harness', 'corr', pid.lower() + '.py')
-        if not os.path.exists(path):
+        if not os.path.exists(path) or pid not in claimed:
             na.append({'property_id': pid, 'reason': PENDING_REASON})
             continue
         m = importlib.import_module('harness.corr.' + pid.lower())
